@@ -293,7 +293,7 @@ def run(ctx):
             a.flags.writeable = False
         return o
 
-    nprog = 1500 if T else 250
+    nprog = 5000 if T else 250
     for p in range(nprog):
         cls = rnd.choice(["E", "O"])
         npol = 1 if cls == "E" else rnd.choice([1, 2])
